@@ -220,12 +220,33 @@ struct Outcome {
 /// all schedules with at most `bound` preemptions, fewest preemptions first
 fn explore(name: &'static str, f: Arc<dyn Fn() + Send + Sync>, bound: usize) -> Outcome {
     let mut out = Outcome { name, schedules: 0, capped: false, bound, failure: None, prefix: None, per_cost: BTreeMap::new(), truncated_points: false, crashed_children: 0 };
-    // pending prefixes by number of preemptions
-    let mut pending: BTreeMap<usize, Vec<Vec<usize>>> = BTreeMap::new();
-    pending.insert(0, vec![vec![]]);
+    // pending prefixes ordered by (window of the last deviation, number of preemptions): first every schedule whose
+    // deviations all lie within the first 16 scheduling points (0, 1, ... bound preemptions), then within the first
+    // 64, 256, 1024, 4096. When the exploration completes this is the same set as plain iterative preemption
+    // bounding; under a wall-clock budget it reaches early-deviation schedules of long executions first.
+    fn window(len: usize) -> usize {
+        match len {
+            0..=16 => 0,
+            17..=64 => 1,
+            65..=256 => 2,
+            257..=1024 => 3,
+            _ => 4,
+        }
+    }
+    let mut pending: BTreeMap<(usize, usize), Vec<Vec<usize>>> = BTreeMap::new();
+    pending.insert((0, 0), vec![vec![]]);
+    let started = std::time::Instant::now();
+    let budget = std::env::var("E5_TIME_BUDGET_S").ok().and_then(|s| s.parse::<u64>().ok()).unwrap_or(90);
     loop {
-        let Some((&cost, _)) = pending.iter().find(|(_, v)| !v.is_empty()) else { break };
-        let level = pending.get_mut(&cost).unwrap();
+        if started.elapsed().as_secs() > budget {
+            // wall-clock budget of one program (a change that adds a lock per random draw makes every execution
+            // millions of scheduling points long): stop, report what was covered
+            out.capped = true;
+            break;
+        }
+        let Some((&key, _)) = pending.iter().find(|(_, v)| !v.is_empty()) else { break };
+        let cost = key.1;
+        let level = pending.get_mut(&key).unwrap();
         let take = level.len().min(PAR).min(CAP.saturating_sub(out.schedules));
         if take == 0 {
             out.capped = true;
@@ -267,7 +288,8 @@ fn explore(name: &'static str, f: Arc<dyn Fn() + Send + Sync>, bound: usize) -> 
                 for alt in 1..nalts {
                     let mut p = rec.choices[..i].to_vec();
                     p.push(alt);
-                    pending.entry(kid_cost).or_default().push(p);
+                    let w = window(p.len());
+                    pending.entry((w, kid_cost)).or_default().push(p);
                 }
             }
         }
@@ -308,30 +330,95 @@ struct Setup {
     pk2: Vec<u8>,
     sigs: Vec<Vec<u8>>,
     key9: (Vec<u8>, Vec<u8>),
+    key9_1024: (Vec<u8>, Vec<u8>),
+    sig9: Vec<u8>,
 }
 
-/// keys and sequential baselines; runs in this process under the scheduler (single thread)
+fn hex(b: &[u8]) -> String {
+    b.iter().map(|x| format!("{:02x}", x)).collect()
+}
+fn unhex(s: &str) -> Vec<u8> {
+    (0..s.len() / 2).filter_map(|i| u8::from_str_radix(&s[2 * i..2 * i + 2], 16).ok()).collect()
+}
+
+/// The set-up in a forked child: the parent process (from which every execution is forked) never calls the
+/// library itself, so each execution starts with whatever process-wide state the library has in its INITIAL state
+/// (a cache that the baseline computation had already filled could not be raced on any more).
 fn run_setup() -> Result<Setup, String> {
+    let mut fds = [0i32; 2];
+    if unsafe { libc::pipe(fds.as_mut_ptr()) } != 0 {
+        return Err("pipe failed".into());
+    }
+    let pid = unsafe { libc::fork() };
+    if pid == 0 {
+        unsafe { libc::close(fds[0]) };
+        let out = match run_setup_here() {
+            Ok((st, npoints)) => json!({"ok": true, "npoints": npoints, "sk1": hex(&st.sk1), "pk1": hex(&st.pk1), "sk2": hex(&st.sk2), "pk2": hex(&st.pk2), "sigs": st.sigs.iter().map(|x| hex(x)).collect::<Vec<_>>(), "k9s": hex(&st.key9.0), "k9p": hex(&st.key9.1), "k9s2": hex(&st.key9_1024.0), "k9p2": hex(&st.key9_1024.1), "sig9": hex(&st.sig9)}).to_string(),
+            Err(e) => json!({"ok": false, "error": e}).to_string(),
+        };
+        let bytes = out.as_bytes();
+        let mut off = 0;
+        while off < bytes.len() {
+            let n = unsafe { libc::write(fds[1], bytes[off..].as_ptr() as *const libc::c_void, bytes.len() - off) };
+            if n <= 0 {
+                break;
+            }
+            off += n as usize;
+        }
+        unsafe {
+            libc::close(fds[1]);
+            libc::_exit(0);
+        }
+    }
+    unsafe { libc::close(fds[1]) };
+    let mut s = String::new();
+    let mut file = unsafe { std::fs::File::from_raw_fd(fds[0]) };
+    let _ = file.read_to_string(&mut s);
+    drop(file);
+    let mut status = 0i32;
+    unsafe { libc::waitpid(pid, &mut status, 0) };
+    let v: Value = serde_json::from_str(&s).map_err(|_| "the set-up process produced no result (crashed)".to_string())?;
+    if v.get("ok").and_then(|x| x.as_bool()) != Some(true) {
+        return Err(v.get("error").and_then(|x| x.as_str()).unwrap_or("set-up failed").to_string());
+    }
+    let g = |k: &str| unhex(v.get(k).and_then(|x| x.as_str()).unwrap_or(""));
+    STEP_BUDGET.store(10 * v.get("npoints").and_then(|x| x.as_u64()).unwrap_or(0) as usize + 5_000_000, std::sync::atomic::Ordering::SeqCst);
+    Ok(Setup {
+        sk1: g("sk1"),
+        pk1: g("pk1"),
+        sk2: g("sk2"),
+        pk2: g("pk2"),
+        sigs: v.get("sigs").and_then(|x| x.as_array()).map(|a| a.iter().map(|x| unhex(x.as_str().unwrap_or(""))).collect()).unwrap_or_default(),
+        key9: (g("k9s"), g("k9p")),
+        key9_1024: (g("k9s2"), g("k9p2")),
+        sig9: g("sig9"),
+    })
+}
+
+/// keys and sequential baselines, computed in the calling process under the scheduler (single thread)
+fn run_setup_here() -> Result<(Setup, usize), String> {
     let slot: Arc<Mutex<Option<Setup>>> = Arc::new(Mutex::new(None));
     let s2 = slot.clone();
     let f: Arc<dyn Fn() + Send + Sync> = Arc::new(move || {
         let (sk1, pk1) = falcon512::keygen(seed(1));
         let (sk2, pk2) = falcon1024::keygen(seed(2));
         let (k9s, k9p) = falcon512::keygen(seed(9));
+        let (k9s2, k9p2) = falcon1024::keygen(seed(9));
+        let k9 = falcon512::SecretKey::from_bytes(&k9s.to_bytes()).expect("own key decodes");
+        let sig9 = sign512(4, b"message A", &k9);
         let k1 = falcon512::SecretKey::from_bytes(&sk1.to_bytes()).expect("own key decodes");
         let k2 = falcon1024::SecretKey::from_bytes(&sk2.to_bytes()).expect("own key decodes");
         let sigs = vec![sign512(1, b"message A", &k1), sign512(2, b"a longer message B ............", &k1), sign1024(3, b"message A", &k2)];
-        *s2.lock().unwrap() = Some(Setup { sk1: sk1.to_bytes(), pk1: pk1.to_bytes(), sk2: sk2.to_bytes(), pk2: pk2.to_bytes(), sigs, key9: (k9s.to_bytes(), k9p.to_bytes()) });
+        *s2.lock().unwrap() = Some(Setup { sk1: sk1.to_bytes(), pk1: pk1.to_bytes(), sk2: sk2.to_bytes(), pk2: pk2.to_bytes(), sigs, key9: (k9s.to_bytes(), k9p.to_bytes()), key9_1024: (k9s2.to_bytes(), k9p2.to_bytes()), sig9 });
     });
     let (failure, rec) = run_one(f, vec![]);
     if let Some(fl) = failure {
         return Err(fl);
     }
-    // an execution of a program does at most about as much work as the set-up (3 keygens + 3 signatures):
-    // a run that needs 10x its scheduling steps is reported as not terminating
-    STEP_BUDGET.store(10 * rec.npoints + 5_000_000, std::sync::atomic::Ordering::SeqCst);
+    // an execution of a program does at most about as much work as the set-up (4 keygens + 4 signatures):
+    // a run that needs 10x its scheduling steps is reported as not terminating (budget set by the caller)
     let v = slot.lock().unwrap().clone();
-    v.ok_or_else(|| "set-up produced nothing".to_string())
+    v.map(|s| (s, rec.npoints)).ok_or_else(|| "set-up produced nothing".to_string())
 }
 
 fn main() {
@@ -388,6 +475,14 @@ fn main() {
                 });
                 let (a, b, c) = (t1.join().unwrap(), t2.join().unwrap(), t3.join().unwrap());
                 assert!(a[1..41] != b[1..41] && a[1..41] != c[1..41] && b[1..41] != c[1..41], "two concurrent signatures carry the same salt");
+                // afterwards, sequentially: the signatures made concurrently still verify (and only for their own message)
+                {
+                    let pk1 = falcon512::PublicKey::from_bytes(&st.pk1).expect("own key decodes");
+                    let pk2 = falcon1024::PublicKey::from_bytes(&st.pk2).expect("own key decodes");
+                    let (sa, sb, sc) = (falcon512::Signature::from_bytes(&a).unwrap(), falcon512::Signature::from_bytes(&b).unwrap(), falcon1024::Signature::from_bytes(&c).unwrap());
+                    assert!(falcon512::verify(b"a longer message B ............", &sb, &pk1) && falcon512::verify(b"message A", &sa, &pk1) && falcon1024::verify(b"message A", &sc, &pk2), "a signature made concurrently is rejected by a later sequential verification");
+                    assert!(!falcon512::verify(b"message A", &sb, &pk1) && !falcon512::verify(b"a longer message B ............", &sa, &pk1), "after concurrent signing, a later verification accepts a signature for the wrong message");
+                }
                 if deterministic {
                     assert!(a == st.sigs[0], "thread 1's signature differs from the one the same call produces alone");
                     assert!(b == st.sigs[1], "thread 2's signature differs from the one the same call produces alone");
@@ -444,14 +539,66 @@ fn main() {
     {
         let st = setup.clone();
         programs.push((
+            "keygen_stream",
+            "one thread generates two Falcon-512 keys in a row (seeds 9, 1) while another generates one (seed 9)",
+            Arc::new(move || {
+                let t1 = shuttle::thread::spawn(|| {
+                    let (s, p) = falcon512::keygen(seed(9));
+                    let (s2, p2) = falcon512::keygen(seed(1));
+                    ((s.to_bytes(), p.to_bytes()), (s2.to_bytes(), p2.to_bytes()))
+                });
+                let t2 = shuttle::thread::spawn(|| {
+                    let (s, p) = falcon512::keygen(seed(9));
+                    (s.to_bytes(), p.to_bytes())
+                });
+                let (a, b) = (t1.join().unwrap(), t2.join().unwrap());
+                assert!(a.0 == st.key9 && b == st.key9, "keygen(seed) overlapping other key generations differs from keygen(seed) run alone");
+                assert!(a.1 == (st.sk1.clone(), st.pk1.clone()), "the second key generation of a thread, overlapping another thread's, differs from the same call alone");
+            }),
+        ));
+    }
+    {
+        let st = setup.clone();
+        programs.push((
+            "keygen2",
+            "Falcon-512 and Falcon-1024 key generation from the SAME seed at the same time, and a decode",
+            Arc::new(move || {
+                let b1 = st.sk1.clone();
+                let k1 = shuttle::thread::spawn(|| {
+                    let (s, p) = falcon512::keygen(seed(9));
+                    (s.to_bytes(), p.to_bytes())
+                });
+                let k2 = shuttle::thread::spawn(|| {
+                    let (s, p) = falcon1024::keygen(seed(9));
+                    (s.to_bytes(), p.to_bytes())
+                });
+                let d = shuttle::thread::spawn(move || falcon512::SecretKey::from_bytes(&b1).expect("own key decodes").to_bytes());
+                let (a, b, c) = (k1.join().unwrap(), k2.join().unwrap(), d.join().unwrap());
+                assert!(a == st.key9, "falcon512::keygen(seed) next to falcon1024::keygen(same seed) differs from the same call alone");
+                assert!(b == st.key9_1024, "falcon1024::keygen(seed) next to falcon512::keygen(same seed) differs from the same call alone");
+                assert!(c == st.sk1, "a key decoded during key generation re-encodes differently");
+            }),
+        ));
+    }
+    {
+        let st = setup.clone();
+        programs.push((
             "verify",
-            "three threads verify (512: two messages under one shared public key object, 1024: one), valid and invalid pairs",
+            "four threads verify (512: two messages under one shared public key object and one under another key, 1024: one), valid and invalid pairs, then sequentially again",
             Arc::new(move || {
                 let pk1 = Arc::new(falcon512::PublicKey::from_bytes(&st.pk1).expect("own key decodes"));
                 let pk2 = Arc::new(falcon1024::PublicKey::from_bytes(&st.pk2).expect("own key decodes"));
                 let (sa, sb, sc) = (st.sigs[0].clone(), st.sigs[1].clone(), st.sigs[2].clone());
                 let (sa2, sb2) = (sa.clone(), sb.clone());
                 let pk1b = pk1.clone();
+                let pk9 = Arc::new(falcon512::PublicKey::from_bytes(&st.key9.1).expect("own key decodes"));
+                let (s9, s9b, sa3, pk1c, pk9c) = (st.sig9.clone(), st.sig9.clone(), sa.clone(), pk1.clone(), pk9.clone());
+                // a fourth thread verifies under ANOTHER Falcon-512 key at the same time
+                let t4 = shuttle::thread::spawn(move || {
+                    let sig = falcon512::Signature::from_bytes(&s9).unwrap();
+                    let foreign = falcon512::Signature::from_bytes(&sa3).unwrap();
+                    (falcon512::verify(b"message A", &sig, &pk9), falcon512::verify(b"message A", &foreign, &pk9))
+                });
                 let t1 = shuttle::thread::spawn(move || {
                     let sig = falcon512::Signature::from_bytes(&sa).unwrap();
                     let other = falcon512::Signature::from_bytes(&sb2).unwrap();
@@ -469,9 +616,14 @@ fn main() {
                     let badsig = falcon1024::Signature::from_bytes(&bad).unwrap();
                     (falcon1024::verify(b"message A", &sig, &pk2), falcon1024::verify(b"message A", &badsig, &pk2))
                 });
-                let (a, b, c) = (t1.join().unwrap(), t2.join().unwrap(), t3.join().unwrap());
-                assert!(a.0 && b.0 && c.0, "a valid signature is rejected when verifications run concurrently");
-                assert!(!a.1 && !b.1 && !c.1, "an invalid (message, signature) pair is accepted when verifications run concurrently");
+                let (a, b, c, d) = (t1.join().unwrap(), t2.join().unwrap(), t3.join().unwrap(), t4.join().unwrap());
+                assert!(a.0 && b.0 && c.0 && d.0, "a valid signature is rejected when verifications run concurrently");
+                assert!(!a.1 && !b.1 && !c.1 && !d.1, "an invalid (message, signature) pair is accepted when verifications run concurrently");
+                // and afterwards, sequentially: whatever the concurrent calls left behind must not change later verdicts
+                let again1 = falcon512::verify(b"message A", &falcon512::Signature::from_bytes(&st.sigs[0]).unwrap(), &pk1c);
+                let again9 = falcon512::verify(b"message A", &falcon512::Signature::from_bytes(&s9b).unwrap(), &pk9c);
+                let cross = falcon512::verify(b"message A", &falcon512::Signature::from_bytes(&s9b).unwrap(), &pk1c);
+                assert!(again1 && again9 && !cross, "after concurrent verifications, a later sequential verification gives a wrong verdict");
             }),
         ));
     }
@@ -503,6 +655,13 @@ fn main() {
                 });
                 let (a, b, c) = (t1.join().unwrap(), t2.join().unwrap(), t3.join().unwrap());
                 assert!(a.0 == st.sk1 && b.0 == st.sk1 && c.0 == st.sk2, "a secret key decoded while other threads decode re-encodes differently");
+                // afterwards, sequentially: later decodes of the same encodings still give the same keys
+                let r1 = falcon512::SecretKey::from_bytes(&st.sk1).expect("own key decodes");
+                let r2 = falcon1024::SecretKey::from_bytes(&st.sk2).expect("own key decodes");
+                assert!(r1.to_bytes() == st.sk1 && r2.to_bytes() == st.sk2, "after concurrent decodes, a later decode of the same bytes gives a different key");
+                if deterministic {
+                    assert!(sign512(1, b"message A", &r1) == st.sigs[0] && sign1024(3, b"message A", &r2) == st.sigs[2], "after concurrent decodes, a key decoded later signs differently from the same key decoded alone");
+                }
                 assert!(b.2 && c.2, "a signature made with a key decoded concurrently does not verify");
                 if deterministic {
                     assert!(a.1 == st.sigs[0] && b.1 == st.sigs[1] && c.1 == st.sigs[2], "a key decoded while other threads decode signs differently from the same key decoded alone");
@@ -512,21 +671,21 @@ fn main() {
     }
 
     for (key, name, f) in programs {
-        if which != "all" && which != key {
+        if which != "all" && !which.split(',').any(|w| w == key) {
             continue;
         }
         if replay {
             let prefix: Vec<usize> = args[3].split(',').filter(|s| !s.is_empty()).filter_map(|s| s.parse().ok()).collect();
             let res = run_forked(&f, &[prefix]);
             let failure = res.into_iter().next().flatten().and_then(|(fl, _)| fl);
-            println!("{}", json!({"program": name, "replayed": true, "failure": failure}));
+            println!("{}", json!({"program": name, "key": key, "replayed": true, "failure": failure}));
             continue;
         }
         let o = explore(name, f, bound);
         let per: Vec<Value> = o.per_cost.iter().map(|(k, v)| json!({"preemptions": k, "schedules": v})).collect();
         println!(
             "{}",
-            json!({"program": o.name, "schedules": o.schedules, "preemption_bound": o.bound, "cap": CAP, "capped": o.capped, "failure": o.failure,
+            json!({"program": o.name, "key": key, "schedules": o.schedules, "preemption_bound": o.bound, "cap": CAP, "capped": o.capped, "failure": o.failure,
                    "prefix": o.prefix.map(|p| p.iter().map(|x| x.to_string()).collect::<Vec<_>>().join(",")),
                    "per_preemption_count": per, "points_beyond_the_first_4096_not_deviated_from": o.truncated_points, "crashed_children": o.crashed_children})
         );
